@@ -109,24 +109,16 @@ def leafPayload : Policy → Nat
 
 mutual
 /-- `Ord::cmp for Policy`: variant name, then payload; thresholds by the derived order of
-`Threshold { k, inner }` (k first, then the children lexicographically) -/
+`Threshold { k, inner }` (k first, then the children lexicographically).  `a.then b` is
+`match a { Equal => b, ord => ord }`. -/
 def cmp : Policy → Policy → Ordering
-  | .thresh k1 s1, .thresh k2 s2 =>
-    match compare k1 k2 with
-    | .eq => cmpList s1 s2
-    | o => o
-  | a, b =>
-    match compare (variantRank a) (variantRank b) with
-    | .eq => compare (leafPayload a) (leafPayload b)
-    | o => o
+  | .thresh k1 s1, .thresh k2 s2 => (compare k1 k2).then (cmpList s1 s2)
+  | a, b => (compare (variantRank a) (variantRank b)).then (compare (leafPayload a) (leafPayload b))
 def cmpList : List Policy → List Policy → Ordering
   | [], [] => .eq
   | [], _ :: _ => .lt
   | _ :: _, [] => .gt
-  | a :: as, b :: bs =>
-    match cmp a b with
-    | .eq => cmpList as bs
-    | o => o
+  | a :: as, b :: bs => (cmp a b).then (cmpList as bs)
 end
 
 def le (a b : Policy) : Bool := cmp a b != .gt
@@ -324,6 +316,22 @@ def NF : Policy → Bool
 def NFl (a o : Bool) : List Policy → Bool
   | [] => true
   | p :: ps => NF p && !isConst p && !(a && isAndT p) && !(o && isOrT p) && NFl a o ps
+end
+
+mutual
+/-- `q` is `p` with the children of thresholds — at any depth — permuted -/
+inductive ChildPerm : Policy → Policy → Prop
+  | refl (p : Policy) : ChildPerm p p
+  | symm {a b : Policy} : ChildPerm a b → ChildPerm b a
+  | trans {a b c : Policy} : ChildPerm a b → ChildPerm b c → ChildPerm a c
+  | perm (k : Nat) {l1 l2 : List Policy} : l1.Perm l2 → ChildPerm (.thresh k l1) (.thresh k l2)
+  | congr (k : Nat) {l1 l2 : List Policy} : ChildPermList l1 l2 →
+      ChildPerm (.thresh k l1) (.thresh k l2)
+/-- member by member -/
+inductive ChildPermList : List Policy → List Policy → Prop
+  | nil : ChildPermList [] []
+  | cons {a b : Policy} {as bs : List Policy} : ChildPerm a b → ChildPermList as bs →
+      ChildPermList (a :: as) (b :: bs)
 end
 
 end MsVerif.Pol
